@@ -57,16 +57,23 @@
 //   BlockStore::known_state       wf result; has (c, k) <==> ss lists c && c known && 0 <= k < get_clock(c) && !skips has (c, k);
 //                                 for lists that start at 0 these are exactly the integrated ids (`lemma_missing_meaning`).
 //                                 Lifted steps `known_state_client`, `known_state_remove_skip`.
-//   Store::write_blocks_from      there is a listing d with `diff_listing(d, store_sv, remote)` -- exactly the pairs of
-//                                 diff_state_vectors(get_state_vector(), sv), highest client first -- and the appended tokens
-//                                 are `emit_all`: Var(#d), then per (c, k) in d:  Var(#blocks - start) Client(c) Var(clock)
+//   BlockStore::get_state         == first_gap of the client's list (0 for an unknown client): the client's get_state_vector entry.
+//   Store::write_blocks_between   (local_sv, sv): the old body of write_blocks_from with the local side as a PARAMETER.  requires
+//                                 lists_wf, items_ok and `local_ok`: local_sv lists only clients the store knows, with clocks <=
+//                                 the end of the client's list (so the first written clock lies in the list and find_index
+//                                 hits).  There is a listing d with `diff_listing(d, local_sv, sv)` -- exactly the pairs of
+//                                 diff_state_vectors(local_sv, sv), highest client first -- and the appended tokens are `emit_all`:
+//                                 Var(#d), then per (c, k) in d:  Var(#blocks - start) Client(c) Var(clock)
 //                                 block_tokens(first, clock - first.start) block_tokens(b, 0)..  with clock = max(k, list[0].start)
 //                                 and start = the index of the block that contains clock.  Lifted step
-//                                 `write_blocks_from_section`.  `lemma_section_exact`: a written section carries exactly the
-//                                 integrated clocks >= k (nothing below, nothing that is not integrated; Skip blocks travel as
-//                                 Skips) and the reader's running clock re-derives every block's start;  `lemma_listed_iff`:
-//                                 a client is written iff its first gap lies above the remote clock (or the remote does not
-//                                 list it).
+//                                 `write_blocks_from_section`.
+//   Store::write_blocks_from      requires lists_wf, items_ok (NOT skips_wf any more).  The same stream over
+//                                 `diff_listing(d, store_ends(store), sv)`: the local side is the END of every client's list.
+//                                 `lemma_section_exact`: a section carries EVERY clock of the list from max(k, first.start) to
+//                                 its end -- also blocks behind a gap, the gap itself as a (trimmed) Skip block, which may be
+//                                 the first written block -- hence exactly the integrated clocks >= k, nothing below; the
+//                                 reader's running clock re-derives every block's start.  `lemma_listed_iff`: a client is
+//                                 written iff the END of its list lies above the remote clock (or the remote does not list it).
 //   Store::write_blocks_to        (the snapshot encoder of C13.)  requires wf, items_ok, `lists_from_zero` (every list starts at
 //                                 clock 0: the function writes Var(0) as first clock and looks up `clock - 1`) and, DOMAIN
 //                                 RESTRICTION, clock(c) < u32::MAX (`blocks.clock() + 1` is unchecked).  There is a listing d
@@ -101,9 +108,9 @@
 //  F-BS2  (REPAIRED, 86c3405) a GC block of length 0 from the wire was pushed into the store (update v1 bytes [1,1,7,0,0,0,0],
 //         then `encode_diff_v1`: subtract overflow in `Block::clock_range` in builds with overflow checks).
 //         Also repaired (c250b7b): `write_blocks_to` computed `clock - 1` for a snapshot clock 0.
-//  OBSERVATIONS  (a) blocks integrated BEYOND a Skip are not offered to a remote whose clock is at or above the first gap
-//         (`lemma_listed_iff`): store Item[0,5) Skip[5,8) Item[8,10), remote clock 6 -> nothing is written for the client.
-//         (b) `write_blocks_to`: `blocks.clock() + 1` overflows (builds with overflow checks) for a client whose clock is exactly
+//  (REPAIRED, b95dc76 / 57501d8) the earlier observation "blocks integrated BEYOND a Skip are not offered to a remote whose
+//         clock is at or above the first gap": write_blocks_from now offers up to the list ends (`lemma_listed_iff`).
+//  OBSERVATION  `write_blocks_to`: `blocks.clock() + 1` overflows (builds with overflow checks) for a client whose clock is exactly
 //         u32::MAX (a block that ends at the last clock); stated as a domain restriction.
 //
 // STAND-IN TYPES (everything else is extracted verbatim from /repo)
@@ -1340,6 +1347,53 @@ impl BlockStore {
     @*/
 }
 
+impl BlockStore {
+    // the single-client form of get_state_vector: exact, == first_gap (0 for an unknown client)
+    /*@extract yrs/src/block_store.rs | impl BlockStore | fn get_state | label=BlockStore.get_state
+    @ret r
+    @sig
+        requires
+            self.wf(),
+        ensures
+            r == first_gap(blocks_of(self.clients@, *client)),
+    @closure 1 `|ranges: &IdRanges<()>| -> (vx_r: Option<u32>)`
+        requires canon(ranges@),
+        ensures
+            vx_r.is_none() <==> ranges@.len() == 0,
+            vx_r.is_some() ==> covers(ranges@, vx_r.unwrap() as int) && forall|c: int| covers(ranges@, c) ==> vx_r.unwrap() <= c,
+    @start
+        let ghost cl = self.clients@;
+        let ghost sk = self.skips@;
+        let ghost s = blocks_of(cl, *client);
+        proof {
+            assert forall|k: int| #![trigger skip_covers(s, k)] has_pt(sk, *client, k) <==> skip_covers(s, k) by {}
+            if sk.contains_key(*client) {
+                // the client has skip points, hence Skip blocks, hence a list; the least skip point is the first gap
+                let rg = sk[*client];
+                assert(canon(rg) && rg.len() > 0);
+                assert(inr(rg[0].0, rg[0].0.start as int));
+                assert(has_pt(sk, *client, rg[0].0.start as int));
+                assert(cl.contains_key(*client));
+                assert forall|m: int| covers(rg, m) && (forall|k: int| covers(rg, k) ==> m <= k) implies m == first_gap(s) by {
+                    assert forall|k: int| #![trigger covers(rg, k)] covers(rg, k) <==> skip_covers(s, k) by {
+                        assert(has_pt(sk, *client, k) <==> skip_covers(s, k));
+                    }
+                    lemma_skip_start(s, rg, m);
+                }
+            } else {
+                if cl.contains_key(*client) {
+                    assert forall|k: int| !skip_covers(s, k) by {
+                        assert(has_pt(sk, *client, k) <==> skip_covers(s, k));
+                    }
+                    lemma_no_skip(s);
+                } else {
+                    assert(first_skip(Seq::<Block>::empty(), 0) == 0);
+                }
+            }
+        }
+    @*/
+}
+
 // ---------------------------------------------------------------------------------------------
 // push
 // ---------------------------------------------------------------------------------------------
@@ -2342,50 +2396,93 @@ pub proof fn lemma_sorted_diff(d0: Seq<(ClientID, u32)>, d: Seq<(ClientID, u32)>
     }
 }
 
+/// the END of every client's block list (what `write_blocks_from` offers: also the blocks integrated behind a gap)
+pub open spec fn store_ends(cl: Map<ClientID, ClientBlockList>) -> Map<ClientID, u32> {
+    Map::new(cl.dom(), |c: ClientID| list_clock(cl[c].inner@) as u32)
+}
+
+/// PRECONDITION of `write_blocks_between` on its local side: it lists only clients the store knows, with clocks that do not
+/// exceed the end of the client's list (so that the first written clock lies in the list and `find_index` hits)
+pub open spec fn local_ok(cl: Map<ClientID, ClientBlockList>, local: Map<ClientID, u32>) -> bool {
+    forall|c: ClientID| #[trigger] local.contains_key(c) ==> cl.contains_key(c) && local[c] <= list_clock(cl[c].inner@)
+}
+
 /// a listed client is known to the store and the clock written first lies in its list
-pub proof fn lemma_section_in_list(cl: Map<ClientID, ClientBlockList>, remote: Map<ClientID, u32>, c: ClientID, k: u32)
+pub proof fn lemma_section_in_list(cl: Map<ClientID, ClientBlockList>, local: Map<ClientID, u32>, remote: Map<ClientID, u32>, c: ClientID, k: u32)
     requires
         lists_wf(cl),
-        diff_has(store_sv(cl), remote, c, k),
+        local_ok(cl, local),
+        diff_has(local, remote, c, k),
     ensures
         cl.contains_key(c),
-        k < first_gap(cl[c].inner@) || k == 0,
+        k < list_clock(cl[c].inner@),
         in_list(cl[c].inner@, max_u32(k, cl[c].inner@[0].start() as u32) as int),
 {
-    let s = cl[c].inner@;
-    assert(cl.contains_key(c)) by {
-        if !cl.contains_key(c) { assert(sv_get(store_sv(cl), c) == 0); }
+    assert(local.contains_key(c)) by {
+        if !local.contains_key(c) { assert(sv_get(local, c) == 0); }
     }
-    lemma_first_gap_meaning(s);
+    let s = cl[c].inner@;
     lemma_list_sorted(s);
     assert(s[0].ok());
     assert(s[0].next() <= s.last().next());
-    assert(store_sv(cl)[c] == first_gap(s));
+}
+
+pub proof fn lemma_store_ends_ok(cl: Map<ClientID, ClientBlockList>)
+    requires
+        lists_wf(cl),
+    ensures
+        local_ok(cl, store_ends(cl)),
+        local_ok(cl, store_sv(cl)),
+{
+    assert forall|c: ClientID| #[trigger] cl.contains_key(c) implies 0 <= first_gap(cl[c].inner@) <= list_clock(cl[c].inner@) <= u32::MAX by {
+        lemma_first_gap_meaning(cl[c].inner@);
+    }
 }
 
 impl Store {
-    /*@extract yrs/src/store.rs | impl Store | fn write_blocks_from | label=Store.write_blocks_from | skip=R6 | rules=INLINE(file=yrs/src/block_store.rs;;container=impl Index<usize> for ClientBlockList;;fn=index;;body=unsafe { &*self.inner[index].get() };;call=&blocks[i];;to=&blocks.inner[i])
+    // `self.blocks.iter().map(closure).collect()`: `BlockStore::iter` is `self.clients.iter()` (accessor body checked; the
+    // `.iter()` goes into the stand-in) and the rest is the trusted stand-in `vx_collect_clocks`, as in get_state_vector.
+    /*@extract yrs/src/store.rs | impl Store | fn write_blocks_from | label=Store.write_blocks_from | rules=INLINE(file=yrs/src/block_store.rs;;container=impl BlockStore;;fn=iter;;body=self.clients.iter();;call=.iter();;to=.clients) SUB(from=.collect();;to=.vx_collect_clocks())
     @sig
         requires
-            self.blocks.wf(),
+            lists_wf(self.blocks.clients@),
             items_ok(self.blocks.clients@),
         ensures
-            exists|d: Seq<(ClientID, u32)>| diff_listing(d, store_sv(self.blocks.clients@), sv@)
+            // the local side is the END of every client's list
+            exists|d: Seq<(ClientID, u32)>| diff_listing(d, store_ends(self.blocks.clients@), sv@)
                 && final(encoder).log() == emit_all(old(encoder).log(), sections(self.blocks.clients@, d)),
     @after 1 `stmt:let local_sv`
+        proof {
+            assert(local_sv@ =~= store_ends(self.blocks.clients@));
+            lemma_store_ends_ok(self.blocks.clients@);
+        }
+    @*/
+
+    // The local side is a PARAMETER.  `local_ok` is what the two callers establish: write_blocks_from passes the list ends
+    // (`lemma_store_ends_ok`); TransactionMut::encode_update passes after_state = get_state_vector() (first gaps <= list ends,
+    // domain = the store's clients) raised by `set_max(client, clock_end)` over the transaction's insert set, whose ranges are
+    // ids of blocks this transaction pushed into the store (<= the end of that client's list).
+    /*@extract yrs/src/store.rs | impl Store | fn write_blocks_between | label=Store.write_blocks_between | skip=R6 | rules=INLINE(file=yrs/src/block_store.rs;;container=impl Index<usize> for ClientBlockList;;fn=index;;body=unsafe { &*self.inner[index].get() };;call=&blocks[i];;to=&blocks.inner[i])
+    @sig
+        requires
+            lists_wf(self.blocks.clients@),
+            items_ok(self.blocks.clients@),
+            local_ok(self.blocks.clients@, local_sv@),
+        ensures
+            exists|d: Seq<(ClientID, u32)>| diff_listing(d, local_sv@, sv@)
+                && final(encoder).log() == emit_all(old(encoder).log(), sections(self.blocks.clients@, d)),
+    @start
         let ghost cl = self.blocks.clients@;
+        let ghost local = local_sv@;
         let ghost remote = sv@;
         let ghost l0 = encoder.log();
-        proof {
-            assert(local_sv@ =~= store_sv(cl));
-        }
     @after 1 `stmt:let diff`
         let ghost d0 = diff@;
     @after 1 `stmt:call vx_sort_by_client_desc`
         let ghost d = diff@;
         let ghost es = sections(cl, d);
         proof {
-            lemma_sorted_diff(d0, d, store_sv(cl), remote);
+            lemma_sorted_diff(d0, d, local, remote);
         }
     @after 1 `stmt:call write_var`
         let ghost l1 = encoder.log();
@@ -2394,9 +2491,10 @@ impl Store {
             it.seq() == d,
             es == sections(cl, d),
             cl == self.blocks.clients@,
-            self.blocks.wf(),
+            lists_wf(cl),
             items_ok(cl),
-            diff_listing(d, store_sv(cl), remote),
+            local_ok(cl, local),
+            diff_listing(d, local, remote),
             encoder.log() == emit_sections(l1, es, it.index@ as int),
     @closure 1 `|i: BlockRef<'_>| -> (vx_r: u32)`
         ensures vx_r == i.cell.start(),
@@ -2408,7 +2506,7 @@ impl Store {
         proof {
             assert(d[n] == (client, clock));
             assert(d.contains((client, clock)));
-            lemma_section_in_list(cl, remote, client, clock);
+            lemma_section_in_list(cl, local, remote, client, clock);
             assert(list_wf(bs));
             assert(e == section_of(cl, client, clock));
         }
@@ -2494,9 +2592,9 @@ impl Store {
     }
 @*/
 
-// One STEP of `write_blocks_from` once more, lifted on its own (R18 statement region; same source text): the body of the
+// One STEP of `write_blocks_between` (the former body of write_blocks_from) once more, lifted on its own (R18 statement region; same source text): the body of the
 // writing loop, i.e. one client section.
-/*@extract yrs/src/store.rs | impl Store | region write_blocks_from | stmt=stmt:let blocks | upto=stmt:for | uptonth=2 | label=write_blocks_from_section | rules=SUB(from=self.blocks;;to=this.blocks) INLINE(file=yrs/src/block_store.rs;;container=impl Index<usize> for ClientBlockList;;fn=index;;body=unsafe { &*self.inner[index].get() };;call=&blocks[i];;to=&blocks.inner[i])
+/*@extract yrs/src/store.rs | impl Store | region write_blocks_between | stmt=stmt:let blocks | upto=stmt:for | uptonth=2 | label=write_blocks_from_section | rules=SUB(from=self.blocks;;to=this.blocks) INLINE(file=yrs/src/block_store.rs;;container=impl Index<usize> for ClientBlockList;;fn=index;;body=unsafe { &*self.inner[index].get() };;call=&blocks[i];;to=&blocks.inner[i])
 @header
     fn write_blocks_from_section<E: Encoder>(this: &Store, encoder: &mut E, client: ClientID, clock: u32)
 @sig
@@ -3412,14 +3510,24 @@ pub open spec fn reader_clock(e: Section, j: int) -> int
     }
 }
 
-/// `write_blocks_from`, read over the clocks.  For a client `c` that is listed with the remote clock `k0`:
-///  (1) the section starts at max(k0, first.start), which lies in its first written block;
-///  (2) every integrated clock of the store at or above k0 is written, and nothing below k0, nothing that is not integrated;
-///  (3) the reader re-derives every block's own first clock (the first block's cut at the section clock).
-pub proof fn lemma_section_exact(cl: Map<ClientID, ClientBlockList>, remote: Map<ClientID, u32>, c: ClientID, k0: u32)
+/// clock `k` is written by the section `e`, as a clock of ANY block (a Skip block travels as a Skip block)
+pub open spec fn section_covers(e: Section, k: int) -> bool {
+    exists|j: int| e.start <= j < e.blocks.len() && (#[trigger] e.blocks[j]).start() <= k < e.blocks[j].next() && e.clock <= k
+}
+
+/// `write_blocks_between` / `write_blocks_from`, read over the clocks.  For a client `c` that is listed with the remote clock
+/// `k0` (local side `local`, e.g. the list ends):
+///  (1) the section starts at max(k0, first.start), which lies in its first written block (which may be a Skip block);
+///  (2) EVERY clock of the list from there to its end is written -- also the blocks behind a gap, the gap itself as a (trimmed)
+///      Skip block -- and nothing below;
+///  (3) in particular every integrated clock of the store at or above k0 is written (as a clock of a non-Skip block), nothing
+///      below k0, nothing that is not integrated;
+///  (4) the reader re-derives every block's own first clock (the first block's cut at the section clock).
+pub proof fn lemma_section_exact(cl: Map<ClientID, ClientBlockList>, local: Map<ClientID, u32>, remote: Map<ClientID, u32>, c: ClientID, k0: u32)
     requires
         lists_wf(cl),
-        diff_has(store_sv(cl), remote, c, k0),
+        local_ok(cl, local),
+        diff_has(local, remote, c, k0),
     ensures
         cl.contains_key(c),
         ({
@@ -3427,11 +3535,12 @@ pub proof fn lemma_section_exact(cl: Map<ClientID, ClientBlockList>, remote: Map
             &&& 0 <= e.start < e.blocks.len()
             &&& e.blocks[e.start].start() <= e.clock < e.blocks[e.start].next()
             &&& e.clock == (if k0 > e.blocks[0].start() { k0 as int } else { e.blocks[0].start() })
+            &&& forall|k: int| #![trigger section_covers(e, k)] section_covers(e, k) <==> e.clock <= k < list_clock(e.blocks)
             &&& forall|k: int| #![trigger section_sends(e, k)] section_sends(e, k) <==> carried(e.blocks, k) && k >= k0
             &&& forall|j: int| e.start < j < e.blocks.len() ==> #[trigger] reader_clock(e, j) == e.blocks[j].start()
         }),
 {
-    lemma_section_in_list(cl, remote, c, k0);
+    lemma_section_in_list(cl, local, remote, c, k0);
     let e = section_of(cl, c, k0);
     let s = e.blocks;
     assert(list_wf(s));
@@ -3439,6 +3548,21 @@ pub proof fn lemma_section_exact(cl: Map<ClientID, ClientBlockList>, remote: Map
     lemma_covered(s, s.len() - 1, e.clock as int);
     let st = e.start;
     assert(0 <= st < s.len() && s[st].start() <= e.clock < s[st].next());
+    assert forall|k: int| #![trigger section_covers(e, k)] section_covers(e, k) <==> e.clock <= k < list_clock(s) by {
+        if section_covers(e, k) {
+            let j = choose|j: int| e.start <= j < e.blocks.len() && (#[trigger] e.blocks[j]).start() <= k < e.blocks[j].next() && e.clock <= k;
+            assert(s[j].next() <= s.last().next());
+        }
+        if e.clock <= k < list_clock(s) {
+            lemma_covered(s, s.len() - 1, k);
+            let j = choose|j: int| 0 <= j <= s.len() - 1 && (#[trigger] s[j]).start() <= k < s[j].next();
+            if j < st {
+                assert(s[j].next() <= s[st - 1].next());
+                assert(s[st - 1].next() == s[st].start());
+            }
+            assert(e.start <= j < e.blocks.len() && e.blocks[j].start() <= k < e.blocks[j].next() && e.clock <= k);
+        }
+    }
     assert forall|k: int| #![trigger section_sends(e, k)] section_sends(e, k) <==> carried(s, k) && k >= k0 by {
         if section_sends(e, k) {
             let j = choose|j: int| e.start <= j < e.blocks.len() && !(#[trigger] e.blocks[j]).skip() && e.blocks[j].start() <= k < e.blocks[j].next() && e.clock <= k;
@@ -3476,23 +3600,22 @@ pub proof fn lemma_reader_clock(e: Section, j: int)
     }
 }
 
-/// ... and as a whole: a client gets a section iff its first NOT integrated clock (`first_gap`) lies above the remote's
-/// clock, or the remote does not list it at all.  OBSERVATION: blocks that are integrated BEYOND a Skip are therefore not
-/// offered to a remote whose clock is at or above the first gap (e.g. store Item[0,5) Skip[5,8) Item[8,10), remote clock 6:
-/// nothing is written for the client although the remote lacks [8,10)); below the first gap everything from the remote clock
-/// to the end of the list is written, Skip blocks included (as Skip blocks).
+/// ... and as a whole, for `write_blocks_from` (local side = the list ends): a client gets a section iff the END of its list lies
+/// above the remote's clock, or the remote does not list it at all -- so blocks integrated BEHIND a gap are offered too
+/// (store Item[0,5) Skip[5,8) Item[8,10), remote clock 6: the section is Skip[6,8) Item[8,10)).
 pub proof fn lemma_listed_iff(cl: Map<ClientID, ClientBlockList>, remote: Map<ClientID, u32>, d: Seq<(ClientID, u32)>, c: ClientID)
     requires
         lists_wf(cl),
-        diff_listing(d, store_sv(cl), remote),
+        diff_listing(d, store_ends(cl), remote),
     ensures
         (exists|i: int| 0 <= i < d.len() && (#[trigger] d[i]).0 == c) <==>
-            cl.contains_key(c) && (!remote.contains_key(c) || first_gap(cl[c].inner@) > remote[c]),
+            cl.contains_key(c) && (!remote.contains_key(c) || list_clock(cl[c].inner@) > remote[c]),
 {
-    let lsv = store_sv(cl);
+    let lsv = store_ends(cl);
+    lemma_store_ends_ok(cl);
     if cl.contains_key(c) {
         lemma_first_gap_meaning(cl[c].inner@);
-        assert(lsv[c] == first_gap(cl[c].inner@));
+        assert(lsv[c] == list_clock(cl[c].inner@));
     }
     if exists|i: int| 0 <= i < d.len() && (#[trigger] d[i]).0 == c {
         let i = choose|i: int| 0 <= i < d.len() && (#[trigger] d[i]).0 == c;
@@ -3500,7 +3623,7 @@ pub proof fn lemma_listed_iff(cl: Map<ClientID, ClientBlockList>, remote: Map<Cl
         assert(diff_has(lsv, remote, c, d[i].1));
         if !cl.contains_key(c) { assert(sv_get(lsv, c) == 0); }
     }
-    if cl.contains_key(c) && (!remote.contains_key(c) || first_gap(cl[c].inner@) > remote[c]) {
+    if cl.contains_key(c) && (!remote.contains_key(c) || list_clock(cl[c].inner@) > remote[c]) {
         let k: u32 = if remote.contains_key(c) { remote[c] } else { 0 };
         assert(diff_has(lsv, remote, c, k));
         assert(d.contains((c, k)));
